@@ -150,3 +150,41 @@ def realise_s4(E, aux):
         row = [E.realize(T[i][k]) for k in range(K)]
         tg.append([names[t] for t in row if t != -1])
     return {"names": names[:N], "targets": tg}
+
+
+# ---------------------------------------------------------------------------
+# S4b - hand-built graphs: ordered distinct targets inside the graph, optional declared back edge per block
+
+
+def s4b_space(N: int, K: int = 2):
+    T = [[z3.Int(f"t{i}_{k}") for k in range(K)] for i in range(N)]
+    BE = [z3.Int(f"be{i}") for i in range(N)]
+    cs = []
+    for i in range(N):
+        for k in range(K):
+            cs += [T[i][k] >= -1, T[i][k] < N]
+            if k:
+                cs.append(z3.Implies(T[i][k - 1] == -1, T[i][k] == -1))
+                cs.append(z3.Implies(T[i][k] != -1, T[i][k] != T[i][k - 1]))
+        cs += [BE[i] >= -1, BE[i] < K]
+        for k in range(K):
+            cs.append(z3.Implies(BE[i] == k, T[i][k] != -1))
+    return z3.And(cs), [T[0][0], T[0][1], BE[0]] + ([T[1][0]] if N > 1 else []), {"N": N, "K": K, "T": T, "BE": BE}
+
+
+def realise_s4b(E, aux):
+    N, K = aux["N"], aux["K"]
+    names = [f"n{i}" for i in range(N)]
+    tg, be = [], []
+    for i in range(N):
+        row = [E.realize(aux["T"][i][k]) for k in range(K)]
+        tg.append([names[t] for t in row if t != -1])
+        be.append(E.realize(aux["BE"][i]))
+    return {"kind": "handbuilt", "names": names, "targets": tg, "backedge": be}
+
+
+def build_s4b(desc):
+    from numba_scfg.core.datastructures.scfg import SCFG
+    from numba_scfg.core.datastructures.basic_block import BasicBlock
+
+    return SCFG({n: BasicBlock(n, tuple(t), (t[b],) if b >= 0 else ()) for n, t, b in zip(desc["names"], desc["targets"], desc["backedge"])})
